@@ -155,14 +155,18 @@ impl<const N: usize> Ex<N> {
                         self.fail(own, format!("size_hint() = {:?} but {} elements are not yet produced", s, hi - lo));
                     }
                 }
-                b't' | b'T' | b'o' | b'u' | b'U' | b'O' => {
+                b't' | b'T' | b'o' | b'u' | b'U' | b'O' | b'm' | b'M' | b'h' | b'H' | b'g' | b'G' => {
                     // nth / nth_back: skip k elements from that end, then yield one
                     let k = match w {
                         b't' | b'u' => 1usize,
                         b'o' | b'O' => 0,
+                        // half of what remains / nine (thresholds on the skip count) / all but one
+                        b'm' | b'M' => (hi - lo) / 2,
+                        b'h' | b'H' => 9,
+                        b'g' | b'G' => (hi - lo).saturating_sub(1),
                         _ => usize::MAX,
                     };
-                    let front = matches!(w, b't' | b'T' | b'o');
+                    let front = matches!(w, b't' | b'T' | b'o' | b'm' | b'h' | b'g');
                     let r = window(|| if front { it.nth(k) } else { it.nth_back(k) });
                     self.allocs += crate::alloc::take_op_allocs();
                     let Some(got) = self.settle(r, false, own) else { break };
